@@ -137,12 +137,19 @@ def abort_at_call(P, fn, n):
         sys.unraisablehook = oldhook
 
 
+def decoy_for(grammars, gi):
+    """the decoy of grammar gi: its twin (same shape and names, other leaves) or the next generated grammar"""
+    if gi % 2 == 0:
+        return G.twin(grammars[gi])
+    return grammars[(gi + 1) % len(grammars)] if len(grammars) > 1 else None
+
+
 def eval_py(P, mode, gcases, text_route=False, decoy=True, aborts=None):
     """Runs the real code; returns per grammar (wire grammar lines, [(s, i, query line, outcome)]).
     The model grammar is encoded from the AST, not from the library's objects.  With text_route every
     other grammar is built by rendering it as ABNF text and loading it through the library's reader.
-    With decoy, a second grammar class with the SAME rule names but other definitions (the next generated grammar) is
-    built before anything is parsed, and every request is first made to the decoy's rule of the same name: state
+    With decoy, a second grammar class with the SAME class name and rule names but other definitions (the twin of the
+    grammar, or the next generated grammar) is built before anything is parsed, and every request is first made to the decoy's rule of the same name: state
     keyed on rule names / sources instead of rule objects (shared memo tables) then shows up as a wrong answer."""
     res = []
     arng = random.Random(aborts) if aborts else None
@@ -161,9 +168,10 @@ def eval_py(P, mode, gcases, text_route=False, decoy=True, aborts=None):
                 build_exc = "exc:" + type(e).__name__ + "-while-building-grammar"
         cls, rules = built if built is not None else (None, [None])
         decoy_rule = None
-        if decoy and build_exc is None and len(gcases) > 1:
+        if decoy and build_exc is None:
             try:
-                _dcls, drules = G.build(P, gcases[(gi + 1) % len(gcases)][0])
+                dgr = decoy_for([g for g, _ in gcases], gi)
+                _dcls, drules = G.build(P, dgr, name=cls.__name__) if dgr else (None, [None])
                 decoy_rule = drules[0]
             except Exception:  # noqa - a decoy that cannot be built is simply not used
                 decoy_rule = None
@@ -243,7 +251,7 @@ def run(ctx, P, mode, n_grammars, n_strings, seed, gen_kwargs=None, all_offsets=
                         "source": [ord(c) for c in s], "source_repr": repr(s), "offset": i, "query": line,
                         "implementation": py, "model": ln,
                         # the grammar of the same rule names that was asked first (see eval_py); part of the failing history
-                        "decoy": grammars[(gi + 1) % len(grammars)] if len(grammars) > 1 else None,
+                        "decoy": decoy_for(grammars, gi),
                     })
     stats["distinct_nontrivial"] = len(nontrivial)
     stats["grammars"] = n_grammars
@@ -273,7 +281,7 @@ def build_with_decoy(P, grammar, decoy):
     drule = None
     if decoy:
         try:
-            _c, drules = G.build(P, [tuple(r) for r in decoy])
+            _c, drules = G.build(P, [tuple(r) for r in decoy], name=cls.__name__)
             drule = drules[0]
         except Exception:  # noqa
             drule = None
